@@ -61,7 +61,8 @@ The escaped text of a normalised value has single blanks only, so the chunks are
 alternating with one blank; on such a text `_wrap_chunks` amounts to: a word joins the current line
 when `len + 1 + |word|` still fits, the first word of a line is always taken (a word longer than
 the width gets a line of its own).  `NormalizedString.serialize` is modelled through this
-word-level form (compared with the real `textwrap.wrap` and with `wrapText` on every run). -/
+word-level form, proved equal to `wrapText` on such texts (`wrap_models_agree`, WrapEquivLemmas)
+and compared with the real `textwrap.wrap` on every run. -/
 
 /-- the words of a text: maximal blank-free runs -/
 def wordsOf (t : Str) : List Str := (splitP (fun c => c = ' ') t).filter (fun x => !x.isEmpty)
